@@ -21,7 +21,7 @@ Definition audited_write_sites : list (string * string * string) :=
    ("errdef", "buildNode.func1", "param visited[_] (delete)");
    ("errdef", "buildNode.func1", "param visited[_] (delete)");
    ("errdef", "(*noTrace).applyOption", "param d.noTrace (=)");
-   ("errdef", "(*stackSkip).applyOption", "param d.stackSkip (+=)");
+   ("errdef", "(*stackSkip).applyOption", "param d.stackSkip (=)");
    ("errdef", "(*stackDepth).applyOption", "param d.stackDepth (=)");
    ("errdef", "(*stackSource).applyOption", "param d.stackSourceLines (=)");
    ("errdef", "(*stackSource).applyOption", "param d.stackSourceDepth (=)");
